@@ -70,6 +70,23 @@ theorem C10_unsubscribe (w : World) (id : Nat) (h : id ∈ w.subs) (hnd : w.subs
   simp only [World.unsubscribe, List.contains_eq_mem, h, decide_true, ↓reduceIte, true_and]
   exact ⟨fun hm => (List.Nodup.mem_erase_iff hnd).1 hm |>.1 rfl, trivial⟩
 
+/-- **C10 (non-subscribed observers).** An observer constructed with `subscribe=False` is not subscribed: the
+subscriber list is unchanged and the new observer is not in it — so by `C10_dispatch_notifies` / `C10_reset_once` it
+receives nothing until it is subscribed by hand. -/
+theorem C10_detached (w : World) (hw : WInv w) (k : ObsKind) (id : Nat) (h : (w.constructDetached k).2 = some id) :
+    (w.constructDetached k).1.subs = w.subs ∧ id ∉ (w.constructDetached k).1.subs ∧
+    ∃ o, (w.constructDetached k).1.heap[id]? = some o ∧ o.kind = k := by
+  unfold World.constructDetached at h ⊢
+  split at h
+  · cases h
+  · rename_i hc
+    simp only [hc, Bool.false_eq_true, ↓reduceIte, Option.some.injEq] at h ⊢
+    subst h
+    refine ⟨trivial, fun hm => ?_, ?_⟩
+    · have := hw.valid _ hm; omega
+    · refine ⟨Obs.construct w.cfg w.s k, by simp, ?_⟩
+      cases k <;> rfl
+
 /-- **C10 (singleton guard).** Constructing an observer of a singleton class while one is subscribed raises
 and leaves the world (in particular the subscriber list) unchanged. -/
 theorem C10_singleton (w : World) (k : ObsKind) (hs : k.singleton = true) (id : Nat) (hid : id ∈ w.subs)
@@ -145,6 +162,12 @@ theorem step_obs0 {w : World} (hw : WInv w) (hv : Valid w.cfg.I) (h0 : 0 ∈ w.s
     split
     · exact ⟨h0, Or.inr (Or.inr ⟨⟨w.s.cache, rfl⟩, rfl, ho⟩)⟩
     · refine ⟨by simp [h0], Or.inr (Or.inr ⟨⟨w.s.cache, rfl⟩, rfl, ?_⟩)⟩
+      simp only; rw [List.getElem?_append_left hlt]; exact ho
+  | constructDetached k =>
+    simp only [World.step, World.constructDetached]
+    split
+    · exact ⟨h0, Or.inr (Or.inr ⟨⟨w.s.cache, rfl⟩, rfl, ho⟩)⟩
+    · refine ⟨h0, Or.inr (Or.inr ⟨⟨w.s.cache, rfl⟩, rfl, ?_⟩)⟩
       simp only; rw [List.getElem?_append_left hlt]; exact ho
   | createOrGet k =>
     simp only [World.step, World.createOrGet]
